@@ -247,6 +247,11 @@ fn record(test_repo: &TestRepo, pb: &Problem, serial: usize) -> Value {
         }
         Err(msg) => {
             let short: String = msg.chars().take(160).collect();
+            obj.insert("evals".into(), json!([]));
+            obj.insert("kind".into(), json!("panic"));
+            obj.insert("bad".into(), json!([]));
+            obj.insert("possibly".into(), json!([]));
+            obj.insert("dup".into(), json!(false));
             obj.insert("panic".into(), json!(short));
         }
     }
